@@ -426,6 +426,9 @@ def parse_opcode(p: Parser) -> OpcodeAstNode:
     addressing_mode, inner_index, operand = parse_operand_and_addressing(addressing_mode, opcode, p)
 
     if accept_token(p.current(), TokenType.ADDRESSING_MODE_INDEX):
+        if inner_index is not None and inner_index.lower() != "s":
+            # only (sr,s),y combines an inner and an outer index.
+            raise ParserSyntaxError("Invalid index inside indirect indexed operand.", p.current())
         index = p.next().value.lower()
         addressing_mode = index_map[addressing_mode]
 
